@@ -1,7 +1,7 @@
 (** The schema engine with CONCRETE element converters: the opaque [conv]/[unconv] of Model/Convert.v instantiated with the
     Scalars engine's models of Bool / String / NagString / OneOf / Integer / Decimal (Model/Scalars.v, C10), through the
-    element-type table regenerated from /repo (Gen/TypedGen.v).  Date-time and time converters stay section variables
-    (their arithmetic is C09's engine, with another value representation).  Definitions only. *)
+    element-type table regenerated from /repo (Gen/TypedGen.v).  Date-time and time converters are section variables
+    here; Model/TypedDT.v instantiates them with C09's engine (Model/DateTimeM.v).  Definitions only. *)
 From OfxV Require Import Base.Prelude Model.Schema Model.Convert Model.Scalars.
 Local Open Scope N_scope.
 
